@@ -19,6 +19,7 @@ pub struct C16;
 ///   variant 4: every include statement is written twice
 ///   variant 5: f0's includes are nested inside a block: let / foreach / if / multiclass > foreach
 ///   variant 8: every include statement has a comment between the keyword and the file name
+///   variant 9: every file additionally has an include statement with an empty file name
 ///   variant 7: no file but the root declares anything by name: the others hold an include of a
 ///              missing file, their includes and an anonymous def of the root's class
 ///   variant 6: two directories: odd files live in INCLUDE_DIR, even files next to the root; both
@@ -58,6 +59,14 @@ fn build(n: usize, edges: u64, variant: u64) -> (Vec<(String, String)>, Vec<Vec<
         }
         if i == 0 && variant == 1 {
             incs.push_str("include \"nowhere.td\"\n");
+        }
+        if variant == 9 {
+            // an include statement whose file name is empty names no file
+            if i == 0 {
+                incs.push_str("include \"\"\n");
+            } else {
+                incs = format!("include \"\"\n{incs}");
+            }
         }
         if i > 0 && (variant == 1 || variant == 7) {
             // every other file starts its includes with a missing file whose statement has the same
@@ -190,6 +199,7 @@ fn check(n: usize, edges: u64, variant: u64) -> Verdict {
             .into_iter()
             .map(|p| (p, "include \"nowhere.td\"".len()))
             .chain(find_all(text, "include \"f9.td\"").into_iter().map(|p| (p, "include \"f9.td\"".len())))
+            .chain(find_all(text, "include \"\"").into_iter().map(|p| (p, "include \"\"".len())))
             .collect();
         for (p, len) in &missing {
             let z = p + len;
@@ -304,7 +314,7 @@ impl Property for C16 {
         true
     }
     fn rule(&self) -> String {
-        "exhaustive: every edge set (self-loops included) over <=3 files (thorough: <=4, all 65536) x 9 variants {plain, +missing includes (at the end of the root; first in every other file, with the same extent as the root's first include), last file only in INCLUDE_DIR, last file in both directory and INCLUDE_DIR, every include written twice, root's includes nested in a block (let / foreach / if / a foreach inside a multiclass, by graph), two directories that each hold their own common.td included everywhere by the same text, no file but the root declaring anything by name (the others hold a missing include, their includes and an anonymous def of the root's class: every diagnostic and every reference exactly once however many paths lead to a file), every include statement written with a comment between the keyword and the file name}; quick adds 3000 sampled 4-file graphs; thorough adds random graphs over 5..8 files. Each file = class K<i>; its include statements; one def per included file using that file's class. Oracle: set_root_file + index terminate (traversal budget), keys(diagnostics()) = reference reachable set, document links = one per resolvable include statement on its string literal with the reference target, a diagnostic on each unresolvable include and none elsewhere, each declaration once in its file's outline, references(K<j>) = its uses in every reachable includer. distinct = digest; non-trivial = the graph has a cycle or a diamond, or the variant is not plain".into()
+        "exhaustive: every edge set (self-loops included) over <=3 files (thorough: <=4, all 65536) x 10 variants {plain, +missing includes (at the end of the root; first in every other file, with the same extent as the root's first include), last file only in INCLUDE_DIR, last file in both directory and INCLUDE_DIR, every include written twice, root's includes nested in a block (let / foreach / if / a foreach inside a multiclass, by graph), two directories that each hold their own common.td included everywhere by the same text, no file but the root declaring anything by name (the others hold a missing include, their includes and an anonymous def of the root's class: every diagnostic and every reference exactly once however many paths lead to a file), every include statement written with a comment between the keyword and the file name, an include statement with an empty file name in every file}; quick adds 3000 sampled 4-file graphs; thorough adds random graphs over 5..8 files. Each file = class K<i>; its include statements; one def per included file using that file's class. Oracle: set_root_file + index terminate (traversal budget), keys(diagnostics()) = reference reachable set, document links = one per resolvable include statement on its string literal with the reference target, a diagnostic on each unresolvable include and none elsewhere, each declaration once in its file's outline, references(K<j>) = its uses in every reachable includer. distinct = digest; non-trivial = the graph has a cycle or a diamond, or the variant is not plain".into()
     }
     fn assumptions(&self) -> Vec<String> {
         vec!["search order from the documentation: directory of the including file, then $INCLUDE_DIR (set once per process to a virtual directory)".into()]
@@ -313,7 +323,7 @@ impl Property for C16 {
         let mut v = Vec::new();
         for n in 1..=3usize {
             v.push(
-                Family::new(&format!("all-graphs-{n}"), 9, move |variant, _r, emit| {
+                Family::new(&format!("all-graphs-{n}"), 10, move |variant, _r, emit| {
                     for e in 0..(1u64 << (n * n)) {
                         if !emit(json!({"kind": "inc", "n": n, "edges": e, "variant": variant})) {
                             return;
@@ -325,7 +335,7 @@ impl Property for C16 {
         }
         if ctx.tier == Tier::Thorough {
             v.push(
-                Family::new("all-graphs-4", 9 * 16, |chunk, _r, emit| {
+                Family::new("all-graphs-4", 10 * 16, |chunk, _r, emit| {
                     let variant = chunk / 16;
                     let hi = chunk % 16;
                     for lo in 0..(1u64 << 12) {
@@ -347,7 +357,7 @@ impl Property for C16 {
                             e |= 1 << b;
                         }
                     }
-                    if !emit(json!({"kind": "inc", "n": n, "edges": e, "variant": rng.below(9)})) {
+                    if !emit(json!({"kind": "inc", "n": n, "edges": e, "variant": rng.below(10)})) {
                         return;
                     }
                 }
@@ -356,7 +366,7 @@ impl Property for C16 {
             v.push(Family::new("sampled-graphs-4", 12, |_c, rng, emit| {
                 for _ in 0..250 {
                     let e = rng.next() & 0xFFFF;
-                    if !emit(json!({"kind": "inc", "n": 4, "edges": e, "variant": rng.below(9)})) {
+                    if !emit(json!({"kind": "inc", "n": 4, "edges": e, "variant": rng.below(10)})) {
                         return;
                     }
                 }
@@ -369,7 +379,7 @@ impl Property for C16 {
             return Verdict::Skip("malformed-case");
         };
         let n = (n as usize).clamp(1, 8);
-        check(n, e & ((1u64 << (n * n).min(63)) - 1) | if n == 8 { e & (1 << 63) } else { 0 }, v % 9)
+        check(n, e & ((1u64 << (n * n).min(63)) - 1) | if n == 8 { e & (1 << 63) } else { 0 }, v % 10)
     }
     fn shrink_keep(&self) -> &'static [&'static str] {
         &["kind", "n", "edges", "variant"]
